@@ -23,6 +23,8 @@ mod k_path;
 mod facts;
 #[cfg(feature = "k_gen")]
 mod k_resp;
+#[cfg(feature = "k_disc")]
+mod k_disc;
 
 pub type OpResult = Result<Value, String>;
 
@@ -35,6 +37,8 @@ fn dispatch(op: &str, input: &mut Value) -> OpResult {
     "path" => k_path::eval(op, input),
     #[cfg(feature = "k_gen")]
     "gen" => k_gen::eval(op, input),
+    #[cfg(feature = "k_disc")]
+    "disc" => k_disc::eval(op, input),
     #[cfg(feature = "k_gen")]
     "resp" => k_resp::eval(op, input),
     #[cfg(feature = "k_gen")]
